@@ -121,8 +121,14 @@ pub enum Obj {
 
 pub struct Payload(pub usize);
 
+thread_local! {
+    /// number of Arc payloads destroyed on this OS thread
+    static ARC_DROPS: std::cell::Cell<usize> = std::cell::Cell::new(0);
+}
+
 impl Drop for Payload {
     fn drop(&mut self) {
+        ARC_DROPS.with(|c| c.set(c.get() + 1));
         out(format!("D arc {}", self.0));
     }
 }
@@ -545,8 +551,11 @@ pub fn run_body(p: &'static Prog, t: &'static Table, b: usize, my_waker: Option<
                     let h = hs.get()[*i].take();
                     match h {
                         Some(h) => {
+                            // which drop destroys the value is part of the result
+                            let before = ARC_DROPS.with(|c| c.get());
                             drop(h);
-                            res("-".into());
+                            let last = ARC_DROPS.with(|c| c.get()) != before;
+                            res(if last { "1".into() } else { "-".into() });
                         }
                         None => res("x".into()),
                     }
